@@ -393,3 +393,11 @@ fn parse_back(src: &str) -> Option<E> {
     }
     cands.into_iter().find(|c| render_min(c) == src)
 }
+
+/// libFuzzer entry: one generated tree
+pub fn fuzz_case(genome: &[u8], acc: &mut Acc) -> Vec<Failure> {
+    let mut g = G::new(genome);
+    let depth = 1 + g.below(5) as u32;
+    let t = gen_logic(&mut g, depth);
+    check_tree(&t, "fuzz", acc)
+}
